@@ -230,3 +230,58 @@ func (in *Interp) havocValue(t types.Type, name string, opt *HavocOpts, depth in
 }
 
 var havocModel = map[string]func(in *Interp, name string, opt *HavocOpts) Value{}
+
+// havocInto overwrites *dst with arbitrary content as a decoder could produce it: exported fields arbitrary,
+// unexported fields kept.
+func (in *Interp) havocInto(dst PtrV, t types.Type, name string) {
+	opt := &HavocOpts{MaxLen: in.param("havoclen", 2)}
+	if st, ok := t.Underlying().(*types.Struct); ok {
+		if _, isModel := modelZero[typeKey(t)]; !isModel {
+			if _, isH := havocModel[typeKey(t)]; !isH {
+				cur := in.load(dst).(*StructV)
+				f := make([]Value, len(cur.F))
+				for i := range f {
+					if st.Field(i).Exported() {
+						f[i] = in.havocField(cur.F[i], st.Field(i).Type(), name+"."+st.Field(i).Name(), opt)
+					} else {
+						f[i] = cur.F[i]
+					}
+				}
+				in.store(dst, &StructV{f})
+				return
+			}
+		}
+	}
+	in.store(dst, in.havocValue(t, name, opt, 0))
+}
+
+// havocField: decode into an existing field value (pre-shaped pointers/interfaces keep their dynamic type).
+func (in *Interp) havocField(cur Value, t types.Type, name string, opt *HavocOpts) Value {
+	switch u := t.Underlying().(type) {
+	case *types.Interface:
+		iv, _ := cur.(IfaceV)
+		if iv.T == nil {
+			// cbor cannot decode into a nil non-empty interface: decoding error or field absent
+			return cur
+		}
+		// pre-shaped: content arbitrary, dynamic type kept
+		if p, ok := iv.V.(PtrV); ok && p.C != nil {
+			nc := in.newCell(p.C.T, in.havocValue(p.C.T, name, opt, 1))
+			return IfaceV{T: iv.T, V: PtrV{C: nc}}
+		}
+		return cur
+	case *types.Pointer:
+		p, _ := cur.(PtrV)
+		if p.C != nil {
+			// pre-shaped pointer: absent key keeps it, present key decodes into it (or null sets nil)
+			present := in.freshVar(name+".present", BoolSort)
+			if !in.branch(present) {
+				return cur
+			}
+			nc := in.newCell(u.Elem(), in.load(p))
+			in.havocInto(PtrV{C: nc}, u.Elem(), name+".*")
+			return PtrV{C: nc}
+		}
+	}
+	return in.havocValue(t, name, opt, 1)
+}
